@@ -58,6 +58,10 @@ def gen_case(rng, big=False):
     elif rng.random() < 0.3:
         ignores.append('ignored-dir')
         files['ignored-dir/junk'] = b'junk'
+    if rng.random() < 0.3:
+        ignores.append('absent-ignored')        # IGNORE for a path that does not exist
+    if rng.random() < 0.2:
+        ignores.append('.git')                  # IGNORE for a hidden path
     # which directories carry their own Manifest
     mdirs = [d for d in dirs[1:] if rng.random() < 0.4 and not C.path_covered(ignores, d)]
     fmt = {d: rng.choice(C.COMPR) for d in mdirs}
